@@ -66,9 +66,25 @@ def oracle(ctx, n_cases):
     for case_no in range(n_cases):
         n = rng.choice([3, 3, 4, 5, 6, 8, 12, 20, 30])
         hist[n] = hist.get(n, 0) + 1
-        src = gen_set(rng, n)
-        R, t = rand_rot(rng), [rng.uniform(-10, 10) for _ in range(3)]
-        noise = rng.choice([0.0, 0.0, 0.05, 0.3])
+        # the fit is scale-invariant: coordinates in A, but also tiny / large units
+        sc = rng.choice([1e-6, 1e-4, 1e-2, 1.0, 1.0, 1.0, 1.0, 100.0])
+        hist['scale %g' % sc] = hist.get('scale %g' % sc, 0) + 1
+        mode = rng.choice(['random', 'random', 'random', 'origin'])
+        if mode == 'origin':
+            # integer coordinates whose centroid is exactly the origin (exact in floating point)
+            while True:
+                src = [[float(rng.randint(-6, 6)) for _ in range(3)] for _ in range(n - 1)]
+                src.append([-sum(p[k] for p in src) for k in range(3)])
+                cc = [[sum(p[i] * p[j] for p in src) for j in range(3)] for i in range(3)]
+                trc = cc[0][0] + cc[1][1] + cc[2][2]
+                mn = (cc[0][0] * cc[1][1] - cc[0][1] ** 2) + (cc[0][0] * cc[2][2] - cc[0][2] ** 2) + (cc[1][1] * cc[2][2] - cc[1][2] ** 2)
+                if trc > 0 and mn > 1e-2 * trc * trc and (n <= 3 or abs(det3(cc)) > 1e-4 * trc ** 3):
+                    break
+            src = [[v * sc for v in p] for p in src]
+        else:
+            src = [[v * sc for v in p] for p in gen_set(rng, n)]
+        R, t = rand_rot(rng), [rng.uniform(-10, 10) * sc for _ in range(3)]
+        noise = rng.choice([0.0, 0.0, 0.05, 0.3]) * sc
         tgt = [[v + rng.gauss(0, noise) if noise else v for v in apply(R, t, p)] for p in src]
         cs, pc = centre(src)
         ct, qc = centre(tgt)
@@ -95,7 +111,7 @@ def oracle(ctx, n_cases):
         N = got['N']
         mine = horn_form(cs, ct)
         code = [N[0][0], N[0][1], N[0][2], N[0][3], N[1][1], N[1][2], N[1][3], N[2][2], N[2][3], N[3][3]]
-        scale = max(1.0, max(abs(x) for x in mine))
+        scale = max(abs(x) for x in mine) or 1.0
         if max(abs(a - b) for a, b in zip(mine, code)) > 1e-9 * scale:
             ctx.broken.append('correspondence: qtrfit form for n=%d pairs differs from the sum of traced one-pair forms' % n)
             bad('4x4 quadratic form differs from Horn\'s matrix', mine, code)
@@ -138,31 +154,40 @@ def oracle(ctx, n_cases):
                 P = [[(1 if i == j else 0) * c + s * K[i][j] + (1 - c) * ax[i] * ax[j] for j in range(3)] for i in range(3)]
                 A = [[sum(P[i][m] * Ut[m][j] for m in range(3)) for j in range(3)] for i in range(3)]
             r1 = rmsd([matvec(A, p) for p in cs], ct)
-            if r1 < r0 - 1e-9:
+            if r1 < r0 - 1e-9 * sc:
                 bad('another rotation gives a smaller RMSD than the fitted one', r0, {'rmsd': r1, 'rotation': A})
                 break
-        if noise == 0.0 and r0 > 1e-7:
+        if noise == 0.0 and r0 > 1e-7 * sc:
             bad('target is an exactly rotated copy but the RMSD after the fit is not zero', 0.0, r0)
         # (e) fit_fragment: rigid copy anywhere in space
         nsub = rng.randint(3, min(n, 6))
         sel = rng.sample(range(n), nsub)
         frag = copy.deepcopy(src)
-        sub_src = [list(src[i]) for i in sel]
+        alias = rng.random() < 0.5
+        # the idiom of the library's own example: the source atoms are rows of the fragment list
+        sub_src = [frag[i] for i in sel] if alias else [list(src[i]) for i in sel]
         sub_tgt = [list(tgt[i]) for i in sel]
+        if mode == 'origin' and alias:
+            # make the centroid of the fitted subset exactly the origin as well: use all atoms
+            sel = list(range(n))
+            sub_src = [frag[i] for i in sel]
+            sub_tgt = [list(tgt[i]) for i in sel]
         # exclude (nearly) collinear subsets: the fit is then not unique
-        cc, _ = centre(sub_src)
+        cc, _ = centre([list(p) for p in sub_src])
         m = [[sum(p[i] * p[j] for p in cc) for j in range(3)] for i in range(3)]
         tr = m[0][0] + m[1][1] + m[2][2]
         minor = (m[0][0] * m[1][1] - m[0][1] ** 2) + (m[0][0] * m[2][2] - m[0][2] ** 2) + (m[1][1] * m[2][2] - m[1][2] ** 2)
         if minor > 1e-3 * tr * tr:
             ev += 1
-            rf, rms = qf.fit_fragment(frag, copy.deepcopy(sub_src), copy.deepcopy(sub_tgt))
-            after = rmsd([rf[i] for i in sel], sub_tgt)
-            if abs(after - rms) > 1e-8:
+            case['fit_fragment'] = {'subset': sel, 'source_rows_shared_with_fragment': alias, 'mode': mode}
+            rf, rms = qf.fit_fragment(frag, sub_src, copy.deepcopy(sub_tgt))
+            rf = [list(p) for p in rf]
+            after = rmsd([rf[i] for i in sel], [tgt[i] for i in sel])
+            if abs(after - rms) > 1e-8 * sc:
                 bad('fit_fragment: reported RMSD is not the deviation after the fit', after, rms)
             if noise == 0.0:
                 dev = max(abs(rf[i][k] - tgt[i][k]) for i in range(n) for k in range(3))
-                if dev > 1e-6:
+                if dev > 1e-6 * sc:
                     bad('fit_fragment: exact rigid copy is not superimposed on its targets', 0.0, dev)
         if case_no < 2:
             common.sample(ctx, {'n': n, 'noise': noise, 'source': [[round(x, 3) for x in p] for p in src[:3]], 'rmsd_after_fit': r0})
